@@ -105,7 +105,7 @@ Proof.
   assert (H1 : space_width (LBR :: x ++ [RBR]) = O).
   { destruct (x ++ [RBR]) as [|b [|c r]]; cbn; reflexivity. }
   rewrite H1. cbn [Nat.eqb andb].
-  change (LBR :: x ++ [RBR]) with ((LBR :: x) ++ [RBR]). rewrite rev_app_distr.
+  change (LBR :: x ++ [RBR]) with ((LBR :: x) ++ [RBR]). rewrite frev_rev, rev_app_distr.
   cbn [rev app]. generalize (rev x ++ [LBR]). intros r.
   destruct r as [|b [|c r]]; cbn [space_width_rev]; try reflexivity.
   - change (asp RBR) with false. cbn iota. unfold sp2. cbn. rewrite andb_false_r. reflexivity.
@@ -127,13 +127,11 @@ Proof. rewrite header_text_br. apply tight_bracket. Qed.
 
 (* ---------- make + ReadFull on exactly the bytes that were written ---------- *)
 Lemma alloc_read_exact b rest :
-  (Z.of_N (nlen b) <= max_alloc)%Z ->
-  alloc_read (Z.of_N (nlen b)) (b ++ rest) = AOk b rest (nlen b).
+  alloc_read (Z.of_N (nlen b)) (b ++ rest) = AOk b rest (alloc_of (nlen b) (nlen (b ++ rest))).
 Proof.
-  intros H. unfold alloc_read.
+  unfold alloc_read.
   assert (H1 : (Z.of_N (nlen b) <? 0)%Z = false) by (apply Z.ltb_ge; lia).
-  assert (H2 : (max_alloc <? Z.of_N (nlen b))%Z = false) by (apply Z.ltb_ge; exact H).
-  rewrite H1, H2. cbn [orb]. rewrite N2Z.id, read_full_exact. reflexivity.
+  rewrite H1. rewrite N2Z.id, read_full_exact. reflexivity.
 Qed.
 
 Lemma trim_wrap_line_lf l text :
